@@ -36,7 +36,7 @@ struct in_s {
 	size_t r;				/* used when R is not fixed by the shape */
 	uint8_t chunk[L + 1];
 	a_word_t out[V_MAXCALLS][A_STW];
-	uint8_t havoc[V_MAXCALLS][A_HAVOC];
+	a_havoc_t havoc[V_MAXCALLS][A_HAVOC];
 };
 #include "verif_in.h"
 #include "common/hash/v_oracle.h"
